@@ -797,6 +797,9 @@ pub struct Tally {
     pub t0: Instant,
     pub exhaustive: bool,
     pub note: Option<String>,
+    /// non-trivial cases that are distinct by construction (enumerations) and therefore counted
+    /// without hashing
+    pub nt_extra: u64,
 }
 
 impl Tally {
@@ -811,6 +814,7 @@ impl Tally {
             t0: Instant::now(),
             exhaustive: false,
             note: None,
+            nt_extra: 0,
         }
     }
     pub fn record(&mut self, key: u64, classes: &[&'static str], sample: impl FnOnce() -> serde_json::Value) {
@@ -831,6 +835,7 @@ impl Tally {
             *self.classes.entry(k).or_insert(0) += v;
         }
         self.nt_hashes.extend(other.nt_hashes);
+        self.nt_extra += other.nt_extra;
         for s in other.samples {
             if self.samples.len() < 6 {
                 self.samples.push(s);
@@ -847,7 +852,7 @@ impl Tally {
             name: self.name.to_string(),
             rule: self.rule.to_string(),
             evaluations: self.evaluations,
-            distinct_nontrivial: self.nt_hashes.len() as u64,
+            distinct_nontrivial: self.nt_hashes.len() as u64 + self.nt_extra,
             exhaustive: self.exhaustive,
             classes: self.classes.iter().map(|(k, v)| (k.to_string(), *v)).collect(),
             missing_mandatory: missing,
